@@ -840,7 +840,9 @@ def _drv_batch(d, mode, vec):
         raw = d.batch(mode, vec)
     out = []
     for r in raw:
-        if r.get("died"):
+        if r.get("skipped"):
+            out.append({"skipped": True})     # the driver gave up after too many deaths in this batch: no verdict
+        elif r.get("died"):
             out.append({"died": True, "how": r.get("how"), "report": r.get("report")})
         elif mode == "rxdata":
             i = r.get("ind")
@@ -869,6 +871,8 @@ def _tx_vector(c):
 
 def interop_verdict(e, direction, c, r):
     """-> (trxcon produced an indication / a datagram?, [(key, msg)])"""
+    if r.get("skipped"):
+        return False, []
     if r.get("died"):
         return False, [("C04:interop:%s:trxcon-died-%s" % (direction, r.get("how")),
                         "trxcon died (%s) on a valid %s: %s" % (r.get("how"), "v0 datagram" if direction == "rx" else "burst request",
@@ -913,6 +917,7 @@ def work_interop(arg):
                 viol.append((key, {"leg": "interop-" + direction, "case": c, "vector": v}, msg))
     cov["interop_%s_%s" % (direction, "indications" if direction == "rx" else "datagrams")] = emitted
     cov["interop_driver_processes"] = getattr(d, "processes", 1)
+    cov["interop_vectors_not_run_after_repeated_deaths"] = sum(1 for r in res if r.get("skipped"))
     return {"cov": cov, "viol": viol, "nviol_extra": nviol - len(viol)}
 
 
@@ -975,7 +980,7 @@ def run(ctx):
                     "every tx / rx v0 / rx v1 NOPE point (3 base points) and the rx v1 burst points with TSC == TN (base point = "
                     "point index mod 3); version-1 points with legacy on have the same octets as with legacy off and are left out",
                     c.get("interop_leg")))
-    c["exhaustive"] = True
+    c["exhaustive"] = not c.get("interop_vectors_not_run_after_repeated_deaths")
     ctx.assumptions += ["vlib/ref/trxd.py is the layout (written from the property statement / TRXD header description)",
                         "legacy padding of a version-0 datagram = two trailing zero octets, for Tx as well as Rx",
                         "joint products of wide fields are not enumerated (one wide field at a time at 3 base points)",
